@@ -268,7 +268,13 @@ def _weight_setup(shadow):
         assume(And(eq(endpoint, v), eq(direction, [-d[0], -d[1], -d[2]])))
         return slant
     g.earth_model = obj("pyrex.earth_model.PREM")
-    use_stub("pyrex.earth_model.PREM.slant_depth", lambda self, endpoint, direction, step=500: slant_depth(endpoint, direction, step))
+    used_models = []
+
+    def slant_stub(self, endpoint, direction, step=500):
+        used_models.append(self)
+        return slant_depth(endpoint, direction, step)
+    use_stub("pyrex.earth_model.PREM.slant_depth", slant_stub)
+    g._used_earth_models = used_models
     use_stub("pyrex.generation.CylindricalGenerator.get_exit_points", lambda self, particle: (enter, leave))
     inter = obj("pyrex.particle.NeutrinoInteraction", total_interaction_length=L) if False else None
     return g, L, v, d, enter, leave, slant
@@ -289,6 +295,8 @@ def weights_formulae():
     p = obj(PT, vertex=v, direction=d, interaction=_Interaction(L))
     sw, iw = g.get_weights(p)
     prove("survival=exp(-column-depth/interaction-length)", eq(sw, exp(-(slant / L))))
+    prove("column-depth-from-the-configured-earth-model",
+          And(len(g._used_earth_models) == 1, g._used_earth_models[0] is g.earth_model))
     L_ice = L / 0.92 / 100
     prove("interaction=(chord/L)*exp(-travelled/L)",
           eq(iw, _dist(leave, enter) / L_ice * exp(-(_dist(v, enter) / L_ice))))
